@@ -261,6 +261,33 @@ func c05main(c *Ctx) {
 				}
 				c.R.Add("parent_and_child_binding_one_key", 1)
 			}
+			// ONE group object used twice in one record: at the top level and again inside a sibling group that sorts after
+			// it (or before it) - an Attr is a pointer, applications pass the same one around. Every occurrence is printed.
+			if idx%5 == 2 {
+				for _, kv := range cs.kvs {
+					if kv.Val.Kind != "group" || kv.Val.Go != nil || kv.Key == "" || len(match.Flatten("", []gen.KV{kv})) == 0 {
+						continue
+					}
+					peer := kv.Attr()
+					via := gen.Pick(r, []string{"zzvia~", "Avia~", "zzvia~"})
+					hops := gen.KV{Key: "hops", Val: gen.V{Kind: "i64", I: 2, Go: 2}}
+					ok := gen.KV{Key: "ok~", Val: gen.V{Kind: "bool", B: true, Go: true}}
+					two := recCase{name: cs.name, msg: "one group object, used twice", lvl: slog.InfoLevel, caller: slog.GetFlags()&slog.Lcaller != 0,
+						kvs: []gen.KV{kv, {Key: via, Val: gen.V{Kind: "group", Items: []gen.KV{kv, hops}}}, ok}}
+					lg := newRoot(cs.name, FLogfmt, w, slog.AlwaysLevel)
+					evs := capture(log, func() { lg.Info(two.msg, peer, slog.Group(via, peer, "hops", 2), "ok~", true) })
+					if len(evs) != 1 || evs[0].Kind != mon.EvWrite {
+						c.R.Violation(idx, "one-write", "C05/one-write/one-group-object-twice", fmt.Sprintf("expected exactly one Write, saw %s", fmtEvents(evs)), two.desc(FLogfmt))
+						return
+					}
+					if vs := c05check(evs[0].Data, two); len(vs) > 0 {
+						c.R.Violation(idx, vs[0].clause, "C05/"+vs[0].clause+"/one-group-object-used-twice-in-a-record", fmt.Sprintf("the group %q is given at the top level and (the same object) inside the group %q: %s\npayload: %s", kv.Key, via, vs[0].detail, q(clip(string(evs[0].Data), 900))), two.desc(FLogfmt))
+						return
+					}
+					c.R.Add("records_with_one_group_object_used_twice", 1)
+					break
+				}
+			}
 			return
 		}
 		culprits, residual := explain(cs, run)
